@@ -5,6 +5,8 @@ package ev
 
 import (
 	"bufio"
+	"runtime/debug"
+	"sync/atomic"
 	"bytes"
 	"crypto/sha1"
 	"encoding/hex"
@@ -91,6 +93,7 @@ type Ctx struct {
 	violTotal  int64
 	exhaustive bool
 	idx        int64
+	beat       int64
 	sites      map[string]bool
 	trace      *os.File
 }
@@ -132,6 +135,7 @@ func (c *Ctx) Max(name string, n int64) {
 // non-trivial by the check's rule (the caller guarantees distinctness by
 // construction of its enumeration).
 func (c *Ctx) Eval(nontrivial bool) {
+	c.beat = time.Now().UnixNano()
 	c.counters["evaluations"]++
 	if nontrivial {
 		c.counters["distinct_nontrivial"]++
@@ -314,6 +318,19 @@ func workerMain(ck *Check, tier, sh string) int {
 			c.trace = f
 			defer f.Close()
 		}
+	}
+	debug.SetMaxStack(48 << 20)
+	if ck.CrashIsViolation {
+		c.beat = time.Now().UnixNano()
+		go func() {
+			for {
+				time.Sleep(2 * time.Second)
+				if time.Since(time.Unix(0, atomicLoad(&c.beat))) > 40*time.Second {
+					fmt.Fprintln(os.Stderr, "fatal error: HANG: no progress for 40s (a library call does not terminate)")
+					os.Exit(4)
+				}
+			}
+		}()
 	}
 	ck.Run(c)
 	r := shardResult{
@@ -693,3 +710,5 @@ func writeEvidence(m *Merged, newViol, known int, wall float64) {
 	os.MkdirAll(dir, 0o755)
 	os.WriteFile(filepath.Join(dir, ck.ID+".json"), append(data, '\n'), 0o644)
 }
+
+func atomicLoad(p *int64) int64 { return atomic.LoadInt64(p) }
